@@ -31,6 +31,33 @@ pub fn mag(spec: &crate::spec::Spec, states: &[&[f64]]) -> f64 {
     m
 }
 
+/// Are two flat states the same configuration up to rounding (1e-9 relative per coordinate;
+/// angles compared modulo 2 pi, quaternions up to sign)? Independent of the weights.
+pub fn same_up_to_rounding(spec: &crate::spec::Spec, a: &[f64], b: &[f64]) -> bool {
+    let mut o = 0;
+    for c in &spec.comps {
+        let w = c.kind.width();
+        let (x, y) = (&a[o..o + w], &b[o..o + w]);
+        let ok = match c.kind {
+            CK::R { .. } => x.iter().zip(y).all(|(p, q)| (p - q).abs() <= 1e-9 * (1.0 + p.abs().max(q.abs()))),
+            CK::So2 { .. } => {
+                let d = (x[0] - y[0]).abs() % (2.0 * std::f64::consts::PI);
+                d.min(2.0 * std::f64::consts::PI - d) <= 1e-9
+            }
+            CK::So3 { .. } => {
+                let same = x.iter().zip(y).all(|(p, q)| (p - q).abs() <= 1e-9);
+                let flipped = x.iter().zip(y).all(|(p, q)| (p + q).abs() <= 1e-9);
+                same || flipped
+            }
+        };
+        if !ok {
+            return false;
+        }
+        o += w;
+    }
+    true
+}
+
 pub fn len_tol<K: Kit>(kit: &K, scale: f64) -> f64 {
     let spec = kit.spec();
     let mut t = dist_tol(spec, scale);
